@@ -17,10 +17,13 @@ def elem (e : Elem) : String := s!"{e.size}:{pay e.pay}"
 
 def joinWith (sep : String) (l : List String) : String := sep.intercalate l
 
-def dataSlab (s : DataSlab) (ty : Nat) : String :=
+/-- `re` renders one element (`elem` unless nested containers have to be resolved) -/
+def dataSlabR (re : Elem → String) (s : DataSlab) (ty : Nat) : String :=
   s!"D({s.hdr.id.render},{s.next.render},{s.hdr.size},{s.hdr.count},{bool01 s.inlined})" ++
   (if s.root then s!"T({ty})" else "") ++
-  "[" ++ joinWith "," (s.elems.map elem) ++ "]"
+  "[" ++ joinWith "," (s.elems.map re) ++ "]"
+
+def dataSlab (s : DataSlab) (ty : Nat) : String := dataSlabR elem s ty
 
 def hdr3 (h : Hdr) : String := s!"{h.id.render}/{h.size}/{h.count}"
 
@@ -30,16 +33,20 @@ def metaSlab {α : Type} (m : MetaSlab α) (ty : Nat) : String :=
   "{" ++ joinWith ";" (m.childHdrs.map hdr3) ++ "}{" ++ joinWith "," (m.countSum.map toString) ++ "}"
 
 /-- every slab of the tree in pre-order -/
-def tree (ty : Nat) : (d : Nat) → ATree d → List String
-  | 0, (s : DataSlab) => [dataSlab s ty]
-  | d + 1, (m : MetaSlab (ATree d)) => metaSlab m ty :: m.children.flatMap (tree ty d)
+def treeR (re : Elem → String) (ty : Nat) : (d : Nat) → ATree d → List String
+  | 0, (s : DataSlab) => [dataSlabR re s ty]
+  | d + 1, (m : MetaSlab (ATree d)) => metaSlab m ty :: m.children.flatMap (treeR re ty d)
+
+def tree (ty : Nat) (d : Nat) (t : ATree d) : List String := treeR elem ty d t
 
 /-- the dump of the slab with the given ID, if it is in the tree -/
-def findSlab (ty : Nat) (id : SlabID) : (d : Nat) → ATree d → Option String
-  | 0, (s : DataSlab) => if s.hdr.id = id then some (dataSlab s ty) else none
+def findSlabR (re : Elem → String) (ty : Nat) (id : SlabID) : (d : Nat) → ATree d → Option String
+  | 0, (s : DataSlab) => if s.hdr.id = id then some (dataSlabR re s ty) else none
   | d + 1, (m : MetaSlab (ATree d)) =>
     if m.hdr.id = id then some (metaSlab m ty)
-    else m.children.findSome? (findSlab ty id d)
+    else m.children.findSome? (findSlabR re ty id d)
+
+def findSlab (ty : Nat) (id : SlabID) (d : Nat) (t : ATree d) : Option String := findSlabR elem ty id d t
 
 def storableSlab (id : SlabID) (e : Elem) : String := s!"V({id.render},{elem e})"
 
